@@ -104,6 +104,9 @@ def run(ctx, model=None):
             for fr in fronts:
                 g = gen.dead_shape_game(rng, kind, pat, front=fr)
                 check_case(ctx, g, model)
+    import analysis as _an
+    _an.optimized_interpreter(ctx, [gen.dead_shape_game(rng, kind, pat) for kind in (PR, P1) for pat in gen.all_patterns(3)][:16],
+                              "no-dead-successor", fields=[2, 3, 6, 7])
     # sizes and magnitudes beyond the random families
     check_case(ctx, gen.big_dead_corridor(2100), model)
     check_case(ctx, gen.cascade_game(300 if ctx.quick() else 1050), None)
